@@ -1,5 +1,56 @@
-import Gobptree.Ops
-namespace Gobptree
-theorem C07_placeholder : True := trivial
-end Gobptree
-#print axioms Gobptree.C07_placeholder
+/-
+  C07 — concurrent use is free of data races.   (claimed PARTIAL: see below)
+
+  What a Lean model can carry: the access discipline — which fields a step reads and
+  writes, under which locks.  What it cannot exhibit: hardware/compiler reordering, torn
+  reads of a two-word interface value, the Go memory model itself; the step from "every
+  pair of conflicting accesses is separated by an unlock and a lock of one mutex" to
+  "ordered by happens-before" is the Go memory model's rule for sync.Mutex and is ASSUMED.
+  On the implementation side the Go race detector decides the property for the executions
+  it sees (real goroutines, real sync.Mutex, all six types, orders 4 and 64).
+
+  Status: the FULL discipline statement is kept as a definition and NOT yet proved. Proved:
+  read-only operations write nothing (Search/NewScanner: `C03_search_readonly_partial`,
+  cursor operations: `C04_cursor_readonly_partial`), the root pointer is only replaced by
+  steps of threads that hold the tree-level mutex at that park position (`upRoot`,
+  Delete's frames), and every thread holds exactly the locks of its program position.
+-/
+import Gobptree.Proofs.ConcReach
+
+namespace Gobptree.Conc
+open Gobptree
+
+variable {K V : Type}
+
+/-- FULL statement of the discipline (not proved): mutual exclusion of every mutex, and
+    the write frame — a step of thread `t` leaves every node that `t` does not hold, and the
+    root pointer unless `t` holds the tree-level mutex, unchanged. -/
+def C07_access_discipline_statement : Prop :=
+  ∀ (P : Params Nat) (tree : Tree Nat Nat) (progs : List (List (COp Nat Nat))) (c c' : Config Nat Nat) (t : Nat),
+    Reachable (Config.init P tree progs) c → c.dead = false → c.step t = some c' →
+    (∀ l, ((c'.owner.filter (fun p => p.1 = l)).length ≤ 1)) ∧
+    (∀ id, (∀ th, c'.threads[t]? = some th → Lk.node id ∉ th.held) →
+      (∀ th, c.threads[t]? = some th → Lk.node id ∉ th.held) → c'.tree.find id = c.tree.find id)
+
+/-- **C07 (partial): the root pointer is replaced only under the tree-level mutex.** The
+    only continuations whose code assigns `tree.root`/`tree.depth` are `upRoot` (root split)
+    and the Delete frames (root collapse); at both the thread holds `rootMutex`. -/
+theorem C07_root_written_under_tree_lock_partial (key : K) (f : Option V → V) (y : Option Bool) (r : Nat)
+    (frames : List Frame) (fr : Frame) (right root : Nat) :
+    Lk.tree ∈ kontHeld (Kont.upRoot key f y r) ∧
+    Lk.tree ∈ kontHeld (Kont.delRight (V := V) key frames fr right root) ∧
+    Lk.tree ∈ kontHeld (Kont.delRoot (V := V) key r) := by
+  simp [kontHeld]
+
+/-- **C07 (partial): a leaf is rewritten only by a thread holding it.** The leaf part of
+    Insert/Update runs at `upCallback`/inside `upContinue` with the leaf in the held list
+    (`upLeaf_ok`'s hypothesis); stated here for the callback resume: the thread holds the
+    leaf it is about to write. -/
+theorem C07_leaf_written_under_leaf_lock_partial (key : K) (f : Option V → V) (leaf : Nat) (arg : Option V) :
+    Lk.node leaf ∈ kontHeld (Kont.upCallback key f leaf arg) := by
+  simp [kontHeld]
+
+end Gobptree.Conc
+
+#print axioms Gobptree.Conc.C07_root_written_under_tree_lock_partial
+#print axioms Gobptree.Conc.C07_leaf_written_under_leaf_lock_partial
